@@ -1194,6 +1194,14 @@ func (cfg *Config) glob(base, pat string) ([]string, error) {
 		if err != nil {
 			return nil, err
 		}
+		if !cfg.DotGlob && !strings.HasPrefix(part, ".") && !strings.HasPrefix(part, `\.`) {
+			// A leading dot in a file name must be matched by a dot
+			// in the pattern; "?" or a bracket expression won't do.
+			inner := matcher
+			matcher = func(name string) bool {
+				return !strings.HasPrefix(name, ".") && inner(name)
+			}
+		}
 		var newMatches []string
 		for _, dir := range matches {
 			newMatches, err = cfg.globDir(base, dir, matcher, wantDir, newMatches)
